@@ -335,7 +335,11 @@ def run_history(case, ctx):
             opk = f"mutate_{op[1]}"
             old_layout = layout(agent)
             try:
-                agent = hist.mutate(agent, op[1], op[2])
+                if op[1] == "arch_direct":
+                    # the public Mutations.architecture_mutate(individual) called on its own (it applies the mutation hook itself)
+                    agent = hist.make_mutations("arch", op[2]).architecture_mutate(agent)
+                else:
+                    agent = hist.mutate(agent, op[1], op[2])
                 new_layout = layout(agent)
             except Exception as e:  # noqa: BLE001 - the mutation machinery is C02-C04's subject
                 ctx.label(f"op-failed:mutate_{op[1]}:{type(e).__name__}")
@@ -446,7 +450,7 @@ def case_strategy(draw, tier):
         if kind == "mutate":
             return st.tuples(st.just("mutate"), st.sampled_from(hist.MUT_KINDS), st.integers(0, 999))
         if kind == "mutate_arch":
-            return st.tuples(st.just("mutate"), st.just("arch"), st.integers(0, 999))
+            return st.tuples(st.just("mutate"), st.sampled_from(["arch", "arch", "arch_direct"]), st.integers(0, 999))
         if kind == "clone":
             return st.tuples(st.just("clone"), st.integers(0, 1))
         return st.tuples(st.just("reload"))
